@@ -853,3 +853,256 @@ theorem specRun_ideal (h : List Op) (s : SpecSt) (hs : s.rules = s.ideal) :
     exact ih _ (specStep_ideal s o hs)
 
 end Sentinel.Iso
+
+namespace Sentinel.Iso
+
+/-! ### the `N + (P − 1)` bound as an invariant of whole histories (bursts, exits, ghosts, reads in any order; rules fixed) -/
+
+/-- ops that change the rule list -/
+def ruleOp : Op → Bool
+  | .load _ => true
+  | .loadres _ _ _ => true
+  | .poke _ _ _ => true
+  | _ => false
+
+/-- batches are ≥ 1 (`z = 0`) or arbitrary (`z = 1`) -/
+def batchOK (z : Nat) : Op → Prop
+  | .entry _ _ b => 1 ≤ b.toNat + z
+  | .sched _ _ bs _ => ∀ b ∈ bs, 1 ≤ b.toNat + z
+  | _ => True
+
+/-- number of goroutines a schedule op puts into the admission path -/
+def burstWidth : Op → Nat
+  | .sched _ _ bs _ => bs.length
+  | _ => 0
+
+def BndInv (z P : Nat) (s : SpecSt) : Prop :=
+  ∀ res, ∀ r ∈ rulesOf s.rules res, inflight s.live res ≤ r.thr.toNat + z + (P - 1)
+
+theorem specRunT_append (rules : List Rule) (bs : List UInt32) (c : SCfg) (s t : List Nat) :
+    specRunT rules bs c (s ++ t) = specRunT rules bs (specRunT rules bs c s) t := by
+  induction s generalizing c with
+  | nil => rfl
+  | cons i r ih => simp only [List.cons_append, specRunT]; exact ih _
+
+theorem specRunDrain_bound (rules : List Rule) (bs : List UInt32) (sch : List Nat) (n N z P : Nat)
+    (hN : ∃ r ∈ rules, r.thr.toNat = N) (hz : ∀ b ∈ bs, 1 ≤ b.toNat + z) (hP : bs.length ≤ P)
+    (h0 : n ≤ N + z + (P - 1)) :
+    n + nInflight (specRunDrain rules bs { base := n, mx := n, th := List.replicate bs.length Pc.idle } sch).th
+      ≤ N + z + (P - 1) := by
+  unfold specRunDrain
+  simp only
+  rw [← specRunT_append]
+  have hpot := specRunT_pot rules bs N z (N + z) P hN hz (le_refl _)
+    (sch ++ drainSched (specRunT rules bs { base := n, mx := n, th := List.replicate bs.length Pc.idle } sch).th)
+    { base := n, mx := n, th := List.replicate bs.length Pc.idle }
+    (fun q _ => by
+      refine le_trans (nChecked_le _) ?_
+      rw [specRunT_length]; simpa using hP)
+    ⟨by simp only [nInflight_replicate_idle, nChecked, List.countP_replicate]; simp; exact h0, h0⟩
+    _ (List.prefix_refl _)
+  have := hpot.pot
+  rw [specRunT_base] at this
+  simp only at this
+  omega
+
+theorem specStep_bnd (z P : Nat) (s : SpecSt) (o : Op) (hr : ruleOp o = false) (hz : batchOK z o)
+    (hP : burstWidth o ≤ P) (h : BndInv z P s) :
+    BndInv z P (specStep s o).1 ∧ (specStep s o).1.rules = s.rules := by
+  cases o with
+  | load rs => cases hr
+  | loadres a b c => cases hr
+  | poke a b c => cases hr
+  | conc res => exact ⟨h, rfl⟩
+  | getrules res => exact ⟨h, rfl⟩
+  | getall => exact ⟨h, rfl⟩
+  | soak a b c d => exact ⟨h, rfl⟩
+  | ghost id =>
+    refine ⟨?_, rfl⟩
+    intro res r hr'
+    simp only [specStep] at hr' ⊢
+    rw [inflight_ghost]; exact h res r hr'
+  | exit id =>
+    refine ⟨?_, rfl⟩
+    intro res r hr'
+    exact le_trans (inflight_filter_le _ _ _) (h res r hr')
+  | entry id res b =>
+    simp only [specStep]
+    by_cases hd : isLive s.live id = true
+    · simp only [hd, if_true]; exact ⟨h, trivial⟩
+    · simp only [hd, Bool.false_eq_true, if_false]
+      cases hc : specCheck (rulesOf s.rules res) (inflight s.live res) b with
+      | some p => exact ⟨h, rfl⟩
+      | none =>
+        refine ⟨?_, rfl⟩
+        intro x r hr'
+        simp only at hr' ⊢
+        rw [inflight_cons]
+        by_cases hx : res = x
+        · subst hx
+          have h1 := (specCheck_none_iff _ _ _).mp hc r hr'
+          have h2 : 1 ≤ b.toNat + z := hz
+          simp only [if_true]; omega
+        · simp only [hx, if_false, Nat.add_zero]; exact h x r hr'
+  | sched id0 res bs sch =>
+    simp only [specStep]
+    by_cases hd : ((List.range bs.length).any fun i => isLive s.live (id0 + i)) = true
+    · simp only [hd, if_true]; exact ⟨h, trivial⟩
+    · simp only [hd, Bool.false_eq_true, if_false]
+      refine ⟨?_, trivial⟩
+      intro x r hr'
+      simp only at hr' ⊢
+      rw [inflight_schedHandles]
+      by_cases hx : res = x
+      · subst hx
+        simp only [if_true]
+        exact specRunDrain_bound (rulesOf s.rules res) bs sch (inflight s.live res) r.thr.toNat z P ⟨r, hr', rfl⟩ hz hP (h res r hr')
+      · simp only [hx, if_false, Nat.add_zero]; exact h x r hr'
+
+theorem specRun_bnd (z P : Nat) (h : List Op) (s : SpecSt) (hr : ∀ o ∈ h, ruleOp o = false)
+    (hz : ∀ o ∈ h, batchOK z o) (hP : ∀ o ∈ h, burstWidth o ≤ P) (h0 : BndInv z P s) :
+    BndInv z P (specRun s h).1 ∧ (specRun s h).1.rules = s.rules := by
+  induction h generalizing s with
+  | nil => exact ⟨h0, rfl⟩
+  | cons o r ih =>
+    obtain ⟨h1, h2⟩ := specStep_bnd z P s o (hr o (by simp)) (hz o (by simp)) (hP o (by simp)) h0
+    obtain ⟨h3, h4⟩ := ih (specStep s o).1 (fun o' ho' => hr o' (by simp [ho']))
+      (fun o' ho' => hz o' (by simp [ho'])) (fun o' ho' => hP o' (by simp [ho'])) h1
+    simp only [specRun]
+    exact ⟨h3, by rw [h4, h2]⟩
+
+theorem specRun_append (s : SpecSt) (a b : List Op) :
+    (specRun s (a ++ b)).1 = (specRun (specRun s a).1 b).1 := by
+  induction a generalizing s with
+  | nil => rfl
+  | cons o r ih => simp only [List.cons_append, specRun]; exact ih _
+
+end Sentinel.Iso
+
+namespace Sentinel.Iso
+
+/-! ### ghosts stay, handles stay nameable -/
+
+/-- the op names handle `f` (only `exit`/`ghost` remove or rename a handle) -/
+def namesId (f : Nat) : Op → Bool
+  | .exit i => i = f
+  | .ghost i => i = f
+  | _ => false
+
+theorem isLive_ghost (live : List (Nat × String)) (id : Nat) : isLive (ghostLive live id) id = false := by
+  rw [Bool.eq_false_iff]
+  intro h
+  rw [isLive_iff] at h
+  obtain ⟨q, hq, hq1⟩ := List.mem_map.mp h
+  unfold ghostLive at hq
+  obtain ⟨p, hp, rfl⟩ := List.mem_map.mp hq
+  by_cases hpid : p.1 = id
+  · simp only [hpid, if_true] at hq1
+    have := freshId_gt live p hp
+    omega
+  · simp only [hpid, if_false] at hq1
+
+theorem mem_step (s : St) (o : Op) (f : Nat) (res : String) (hm : (f, res) ∈ s.live) (hn : namesId f o = false) :
+    (f, res) ∈ (step s o).1.live := by
+  cases o with
+  | load rs => exact hm
+  | loadres a b c => exact hm
+  | poke a b c => exact hm
+  | conc r => exact hm
+  | getrules r => exact hm
+  | getall => exact hm
+  | soak a b c d => exact hm
+  | entry id r b =>
+    simp only [step]
+    split
+    · exact hm
+    · split
+      · exact hm
+      · exact List.mem_cons_of_mem _ hm
+  | exit i =>
+    simp only [namesId, decide_eq_false_iff_not] at hn
+    simp only [step]
+    split
+    · exact List.mem_filter.mpr ⟨hm, by simpa using fun e : f = i => hn e.symm⟩
+    · exact hm
+  | ghost i =>
+    simp only [namesId, decide_eq_false_iff_not] at hn
+    simp only [step, ghostLive]
+    refine List.mem_map.mpr ⟨(f, res), hm, ?_⟩
+    have : ¬ (f = i) := fun e => hn e.symm
+    simp [this]
+  | sched id0 r bs sch =>
+    simp only [step]
+    split
+    · exact hm
+    · exact List.mem_append_right _ hm
+
+theorem mem_run (h : List Op) (s : St) (f : Nat) (res : String) (hm : (f, res) ∈ s.live)
+    (hn : ∀ o ∈ h, namesId f o = false) : (f, res) ∈ (run s h).1.live := by
+  induction h generalizing s with
+  | nil => exact hm
+  | cons o r ih =>
+    simp only [run]
+    exact ih _ (mem_step s o f res hm (hn o (by simp))) (fun o' ho' => hn o' (by simp [ho']))
+
+/-- handle ids used by the op are below `B` -/
+def idsBelow (B : Nat) : Op → Prop
+  | .entry id _ _ => id < B
+  | .sched id0 _ bs _ => id0 + bs.length ≤ B
+  | _ => True
+
+def isGhostOp : Op → Bool
+  | .ghost _ => true
+  | _ => false
+
+theorem specStep_ids (B : Nat) (s : SpecSt) (o : Op) (hg : isGhostOp o = false) (hi : idsBelow B o)
+    (h : ∀ p ∈ s.live, p.1 < B) : ∀ p ∈ (specStep s o).1.live, p.1 < B := by
+  cases o with
+  | load rs => exact h
+  | loadres a b c => exact h
+  | poke a b c => exact h
+  | conc r => exact h
+  | getrules r => exact h
+  | getall => exact h
+  | soak a b c d => exact h
+  | ghost i => cases hg
+  | exit i =>
+    intro p hp
+    exact h p (List.mem_filter.mp hp).1
+  | entry id r b =>
+    simp only [specStep]
+    split
+    · exact h
+    · split
+      · exact h
+      · intro p hp
+        rcases List.mem_cons.mp hp with rfl | hp
+        · exact hi
+        · exact h p hp
+  | sched id0 r bs sch =>
+    simp only [specStep]
+    split
+    · exact h
+    · intro p hp
+      simp only at hp
+      rcases List.mem_append.mp hp with hp | hp
+      · obtain ⟨i, hi', hj⟩ := schedHandles_mem id0 r _ p.1 (List.mem_map.mpr ⟨p, hp, rfl⟩)
+        have hlen : (specRunDrain (rulesOf s.rules r) bs
+            { base := inflight s.live r, mx := inflight s.live r, th := List.replicate bs.length Pc.idle } sch).th.length = bs.length := by
+          unfold specRunDrain
+          simp only [specRunT_length, List.length_replicate]
+        rw [hlen] at hi'
+        have : id0 + bs.length ≤ B := hi
+        omega
+      · exact h p hp
+
+theorem specRun_ids (B : Nat) (h : List Op) (s : SpecSt) (hg : ∀ o ∈ h, isGhostOp o = false) (hi : ∀ o ∈ h, idsBelow B o)
+    (h0 : ∀ p ∈ s.live, p.1 < B) : ∀ p ∈ (specRun s h).1.live, p.1 < B := by
+  induction h generalizing s with
+  | nil => exact h0
+  | cons o r ih =>
+    simp only [specRun]
+    exact ih _ (fun o' ho' => hg o' (by simp [ho'])) (fun o' ho' => hi o' (by simp [ho']))
+      (specStep_ids B s o (hg o (by simp)) (hi o (by simp)) h0)
+
+end Sentinel.Iso
